@@ -18,7 +18,7 @@ use std::sync::{Arc, Mutex};
 use std::time::{Duration, Instant};
 
 pub const LEVEL: &str = "exploration";
-pub const RULE: &str = "case = scenario on a real connected client (Connector::connect over a socket pair and TLS) whose receive thread is the binary's launch_rdp_thread: 1..12 fast-path bitmap PDUs tagged with serial numbers; a packing of PDUs into TLS records (one per record, several per record, one PDU split over 2-3 records) and of records into socket writes (one write per record, all coalesced, 1..n-byte pieces) with seeded pauses (0 / 100 us / 5 ms); an end mode (disconnect-provider ultimatum, TLS close_notify then close, abrupt close, undecodable PDU then close, none) placed before any PDU, between PDUs or inside a PDU; 0..2 concurrent writer threads doing lock + try_write. Oracle: with the server silent and open every PDU already sent arrives on the bitmap channel in serial order within 5 s (a miss is confirmed by a 'poke' PDU: if the missing events then arrive the thread was waiting for further server traffic); after the end event the thread's JoinHandle is finished within 5 s and the shared client is released (a live thread is classified as spinning or blocked by process CPU time); everything sent before the end was forwarded in order. The matrix section covers every end mode at every protocol point and every packing (one / several / split PDUs per record) on a plain-TLS and on a CredSSP (PROTOCOL_HYBRID) session, plus scenarios that start with 6 s (thorough: 2, 6, 11, 31, 61 s) of complete server silence; one generated scenario in three runs on a CredSSP session. Scenarios run one at a time. Non-trivial = packing other than one-PDU-per-record-per-write, or an end mode other than none; distinct by hash of the scenario.";
+pub const RULE: &str = "case = scenario on a real connected client (Connector::connect over a socket pair and TLS) whose receive thread is the binary's launch_rdp_thread: 1..12 fast-path bitmap PDUs tagged with serial numbers; a packing of PDUs into TLS records (one per record, several per record, one PDU split over 2-3 records) and of records into socket writes (one write per record, all coalesced, 1..n-byte pieces) with seeded pauses (0 / 100 us / 5 ms); an end mode (disconnect-provider ultimatum, TLS close_notify then close, abrupt close, undecodable PDU then close, connection reset (RST, on the loopback-TCP transport), none) placed before any PDU, between PDUs or inside a PDU; 0..2 concurrent writer threads doing lock + try_write. Oracle: with the server silent and open every PDU already sent arrives on the bitmap channel in serial order within 5 s (a miss is confirmed by a 'poke' PDU: if the missing events then arrive the thread was waiting for further server traffic); after the end event the thread's JoinHandle is finished within 5 s and the shared client is released (a live thread is classified as spinning or blocked by process CPU time); everything sent before the end was forwarded in order. The matrix section covers every end mode at every protocol point and every packing (one / several / split PDUs per record) on a plain-TLS and on a CredSSP (PROTOCOL_HYBRID) session, plus scenarios that start with 6 s (thorough: 2, 6, 11, 31, 61 s) of complete server silence; one generated scenario in three runs on a CredSSP session. Scenarios run one at a time. Non-trivial = packing other than one-PDU-per-record-per-write, or an end mode other than none; distinct by hash of the scenario.";
 
 const T_DELIVER: Duration = Duration::from_secs(5);
 const T_STOP: Duration = Duration::from_secs(5);
@@ -49,6 +49,8 @@ pub enum EndMode {
     CloseNotify,
     AbruptClose,
     UndecodableThenClose,
+    /// TCP only: the server's socket is closed with SO_LINGER 0, the client sees a connection reset (RST)
+    Reset,
 }
 
 #[derive(Serialize, Deserialize, Hash, Clone, Debug)]
@@ -71,12 +73,96 @@ pub struct Case {
     /// seconds of complete server silence before the PDUs are sent (the receive thread sits in its wait call meanwhile)
     #[serde(default)]
     pub silence_s: u8,
+    /// the transport is a TCP connection over the loopback interface instead of a unix socket pair
+    #[serde(default)]
+    pub tcp: bool,
+}
+
+/// the transport under the client and under the server's TLS: a unix socket pair or loopback TCP
+#[derive(Debug)]
+pub enum Sock {
+    Unix(UnixStream),
+    Tcp(std::net::TcpStream),
+    Closed,
+}
+
+impl Sock {
+    fn fd(&self) -> i32 {
+        match self {
+            Sock::Unix(s) => s.as_raw_fd(),
+            Sock::Tcp(s) => s.as_raw_fd(),
+            Sock::Closed => -1,
+        }
+    }
+    fn shutdown(&self, how: std::net::Shutdown) -> io::Result<()> {
+        match self {
+            Sock::Unix(s) => s.shutdown(how),
+            Sock::Tcp(s) => s.shutdown(how),
+            Sock::Closed => Ok(()),
+        }
+    }
+    fn set_timeouts(&self, d: Duration) {
+        match self {
+            Sock::Unix(s) => {
+                s.set_read_timeout(Some(d)).ok();
+            }
+            Sock::Tcp(s) => {
+                s.set_read_timeout(Some(d)).ok();
+                s.set_nodelay(true).ok();
+            }
+            Sock::Closed => {}
+        }
+    }
+    /// close so that the peer gets a reset instead of an orderly end of stream
+    fn reset(&mut self) {
+        if let Sock::Tcp(s) = self {
+            let l = libc::linger { l_onoff: 1, l_linger: 0 };
+            unsafe {
+                libc::setsockopt(s.as_raw_fd(), libc::SOL_SOCKET, libc::SO_LINGER, &l as *const _ as *const libc::c_void, std::mem::size_of::<libc::linger>() as u32);
+            }
+        }
+        *self = Sock::Closed;
+    }
+    fn pair(tcp: bool) -> io::Result<(Sock, Sock)> {
+        if tcp {
+            let l = std::net::TcpListener::bind("127.0.0.1:0")?;
+            let a = std::net::TcpStream::connect(l.local_addr()?)?;
+            let (b, _) = l.accept()?;
+            Ok((Sock::Tcp(a), Sock::Tcp(b)))
+        } else {
+            let (a, b) = UnixStream::pair()?;
+            Ok((Sock::Unix(a), Sock::Unix(b)))
+        }
+    }
+}
+
+impl Read for Sock {
+    fn read(&mut self, b: &mut [u8]) -> io::Result<usize> {
+        match self {
+            Sock::Unix(s) => s.read(b),
+            Sock::Tcp(s) => s.read(b),
+            Sock::Closed => Ok(0),
+        }
+    }
+}
+
+impl Write for Sock {
+    fn write(&mut self, b: &[u8]) -> io::Result<usize> {
+        match self {
+            Sock::Unix(s) => s.write(b),
+            Sock::Tcp(s) => s.write(b),
+            Sock::Closed => Err(io::Error::new(io::ErrorKind::BrokenPipe, "closed")),
+        }
+    }
+    fn flush(&mut self) -> io::Result<()> {
+        Ok(())
+    }
 }
 
 /// server-side transport below OpenSSL: lets the scenario decide how ciphertext is cut into socket writes
 #[derive(Debug)]
 pub struct Pipe {
-    sock: UnixStream,
+    sock: Sock,
     hold: bool,
     buf: Vec<u8>,
 }
@@ -116,21 +202,21 @@ fn serial_pdu(serial: u16) -> Vec<u8> {
 
 struct Session {
     tls: SslStream<Pipe>,
-    client: Arc<Mutex<RdpClient<UnixStream>>>,
+    client: Arc<Mutex<RdpClient<Sock>>>,
     sync: Arc<AtomicBool>,
     rx: Receiver<BitmapEvent>,
     handle: Option<std::thread::JoinHandle<()>>,
 }
 
-fn setup(nla: bool) -> Result<Session, String> {
-    let (a, b) = UnixStream::pair().map_err(|e| e.to_string())?;
-    a.set_read_timeout(Some(Duration::from_secs(20))).ok();
-    b.set_read_timeout(Some(Duration::from_secs(20))).ok();
-    let fd = a.as_raw_fd();
+fn setup(nla: bool, tcp: bool) -> Result<Session, String> {
+    let (a, b) = Sock::pair(tcp).map_err(|e| e.to_string())?;
+    a.set_timeouts(Duration::from_secs(20));
+    b.set_timeouts(Duration::from_secs(20));
+    let fd = a.fd();
     // the client connects (and runs the activation) on a helper thread while this thread plays the server
     let cfg = ClientCfg { nla, ..ClientCfg::simple() };
     let server_cfg = cfg.clone();
-    let helper = std::thread::spawn(move || -> Result<RdpClient<UnixStream>, String> {
+    let helper = std::thread::spawn(move || -> Result<RdpClient<Sock>, String> {
         let mut c = tls::connector_of(&cfg);
         let mut client = c.connect(a).map_err(|e| format!("connect: {:?}", e))?;
         for _ in 0..5 {
@@ -273,6 +359,7 @@ pub fn run(c: &Case) -> Outcome {
         EndMode::CloseNotify => "end:close-notify",
         EndMode::AbruptClose => "end:abrupt-close",
         EndMode::UndecodableThenClose => "end:undecodable",
+        EndMode::Reset => "end:reset",
     });
     if c.nla {
         out.label("session:nla");
@@ -280,7 +367,10 @@ pub fn run(c: &Case) -> Outcome {
     if c.silence_s > 0 {
         out.label("long-silence");
     }
-    let mut s = match setup(c.nla) {
+    if c.tcp {
+        out.label("transport:tcp");
+    }
+    let mut s = match setup(c.nla, c.tcp) {
         Ok(s) => s,
         Err(e) => {
             out.fail("inconclusive:setup", format!("session setup failed: {}", e));
@@ -418,6 +508,15 @@ pub fn run(c: &Case) -> Outcome {
                 s.tls.get_mut().sock.shutdown(std::net::Shutdown::Both)
             }
             EndMode::AbruptClose => s.tls.get_mut().sock.shutdown(std::net::Shutdown::Both),
+            EndMode::Reset => {
+                // on a unix socket pair there is no reset: it degenerates to an abrupt close
+                if c.tcp {
+                    s.tls.get_mut().sock.reset();
+                    Ok(())
+                } else {
+                    s.tls.get_mut().sock.shutdown(std::net::Shutdown::Both)
+                }
+            }
             EndMode::UndecodableThenClose => {
                 // a slow-path frame with an MCS opcode the client does not know, then close
                 let r = s.tls.write_all(&[3, 0, 0, 9, 2, 0xF0, 0x80, 0xFC, 0x00]);
@@ -480,6 +579,7 @@ pub fn run(c: &Case) -> Outcome {
 pub fn decode(s: &mut Src) -> Case {
     // decided from the first bytes: late choices are starved by short choice strings
     let nla = s.chance(80);
+    let tcp = s.chance(100);
     let silence_s = if s.chance(6) { 1 + s.below(2) as u8 } else { 0 };
     let records = match s.below(4) {
         0 => RecordPacking::OnePerRecord,
@@ -492,9 +592,9 @@ pub fn decode(s: &mut Src) -> Case {
         1 => SocketPacking::Pieces(s.pick(&[1u16, 3, 7, 29, 64])),
         _ => SocketPacking::PerRecord,
     };
-    let end = s.pick(&[EndMode::None, EndMode::DisconnectUltimatum, EndMode::CloseNotify, EndMode::AbruptClose, EndMode::UndecodableThenClose, EndMode::DisconnectUltimatum]);
+    let end = s.pick(&[EndMode::None, EndMode::DisconnectUltimatum, EndMode::CloseNotify, EndMode::AbruptClose, EndMode::UndecodableThenClose, EndMode::DisconnectUltimatum, EndMode::Reset]);
     let pdus = 1 + s.below(12) as u8;
-    Case { pdus, records, socket, pause: s.below(3) as u8, end, end_after: s.below(pdus as usize + 1) as u8, end_inside: s.chance(64), writers: s.below(3) as u8, end_delay: s.below(3) as u8, nla, silence_s }
+    Case { pdus, records, socket, pause: s.below(3) as u8, end, end_after: s.below(pdus as usize + 1) as u8, end_inside: s.chance(64), writers: s.below(3) as u8, end_delay: s.below(3) as u8, nla, silence_s, tcp }
 }
 
 fn matrix(thorough: bool) -> Vec<Case> {
@@ -502,25 +602,37 @@ fn matrix(thorough: bool) -> Vec<Case> {
     let mut v = Vec::new();
     for end in [EndMode::DisconnectUltimatum, EndMode::CloseNotify, EndMode::AbruptClose, EndMode::UndecodableThenClose] {
         for (end_after, inside) in [(0u8, false), (2, false), (2, true), (4, false)] {
-            v.push(Case { pdus: 4, records: RecordPacking::OnePerRecord, socket: SocketPacking::PerRecord, pause: 0, end, end_after, end_inside: inside, writers: 0, end_delay: 0, nla: false, silence_s: 0 });
+            v.push(Case { pdus: 4, records: RecordPacking::OnePerRecord, socket: SocketPacking::PerRecord, pause: 0, end, end_after, end_inside: inside, writers: 0, end_delay: 0, nla: false, silence_s: 0, tcp: false });
         }
     }
     for records in [RecordPacking::OnePerRecord, RecordPacking::SplitAcrossRecords(2), RecordPacking::SplitAcrossRecords(3)] {
         for socket in [SocketPacking::PerRecord, SocketPacking::Coalesced, SocketPacking::Pieces(1), SocketPacking::Pieces(29)] {
-            v.push(Case { pdus: 5, records, socket, pause: 0, end: EndMode::None, end_after: 0, end_inside: false, writers: 1, end_delay: 0, nla: false, silence_s: 0 });
+            v.push(Case { pdus: 5, records, socket, pause: 0, end: EndMode::None, end_after: 0, end_inside: false, writers: 1, end_delay: 0, nla: false, silence_s: 0, tcp: false });
         }
     }
     // several PDUs per TLS record, on a plain-TLS and on a CredSSP session
     for nla in [false, true] {
         for records in [RecordPacking::ManyPerRecord(2), RecordPacking::ManyPerRecord(3), RecordPacking::ManyPerRecord(5), RecordPacking::OnePerRecord, RecordPacking::SplitAcrossRecords(2)] {
-            v.push(Case { pdus: 6, records, socket: SocketPacking::PerRecord, pause: 0, end: if nla { EndMode::DisconnectUltimatum } else { EndMode::None }, end_after: 6, end_inside: false, writers: 0, end_delay: 0, nla, silence_s: 0 });
+            v.push(Case { pdus: 6, records, socket: SocketPacking::PerRecord, pause: 0, end: if nla { EndMode::DisconnectUltimatum } else { EndMode::None }, end_after: 6, end_inside: false, writers: 0, end_delay: 0, nla, silence_s: 0, tcp: false });
         }
+    }
+    // loopback TCP: every end mode including a connection reset, at every protocol point; the packings once
+    for end in [EndMode::Reset, EndMode::DisconnectUltimatum, EndMode::CloseNotify, EndMode::AbruptClose, EndMode::UndecodableThenClose] {
+        for (end_after, inside) in [(0u8, false), (2, false), (2, true), (4, false)] {
+            if end != EndMode::Reset && (end_after, inside) != (2, false) {
+                continue;
+            }
+            v.push(Case { pdus: 4, records: RecordPacking::OnePerRecord, socket: SocketPacking::PerRecord, pause: 0, end, end_after, end_inside: inside, writers: (end_after % 2), end_delay: 0, nla: false, silence_s: 0, tcp: true });
+        }
+    }
+    for (records, socket) in [(RecordPacking::ManyPerRecord(3), SocketPacking::PerRecord), (RecordPacking::SplitAcrossRecords(2), SocketPacking::Pieces(7)), (RecordPacking::OnePerRecord, SocketPacking::Coalesced)] {
+        v.push(Case { pdus: 6, records, socket, pause: 0, end: EndMode::Reset, end_after: 6, end_inside: false, writers: 0, end_delay: 1, nla: true, silence_s: 0, tcp: true });
     }
     // long server silence first (longer than common wait timeouts), then traffic and an end event
     let silences: &[u8] = if thorough { &[2, 6, 11, 31, 61] } else { &[6] };
     for &silence_s in silences {
-        v.push(Case { pdus: 3, records: RecordPacking::OnePerRecord, socket: SocketPacking::PerRecord, pause: 0, end: EndMode::DisconnectUltimatum, end_after: 3, end_inside: false, writers: 0, end_delay: 0, nla: false, silence_s });
-        v.push(Case { pdus: 2, records: RecordPacking::ManyPerRecord(2), socket: SocketPacking::PerRecord, pause: 0, end: EndMode::AbruptClose, end_after: 0, end_inside: false, writers: 1, end_delay: 0, nla: false, silence_s });
+        v.push(Case { pdus: 3, records: RecordPacking::OnePerRecord, socket: SocketPacking::PerRecord, pause: 0, end: EndMode::DisconnectUltimatum, end_after: 3, end_inside: false, writers: 0, end_delay: 0, nla: false, silence_s, tcp: false });
+        v.push(Case { pdus: 2, records: RecordPacking::ManyPerRecord(2), socket: SocketPacking::PerRecord, pause: 0, end: EndMode::AbruptClose, end_after: 0, end_inside: false, writers: 1, end_delay: 0, nla: false, silence_s, tcp: false });
     }
     v
 }
@@ -529,10 +641,11 @@ pub fn check(rep: &Report) {
     tls::pki();
     rep.assume("liveness is approximated by deadlines (5 s, normal latency < 20 ms); client-side interleavings are perturbed by injected delays and concurrent writers, not controlled");
     rep.assume("scenarios run one at a time so that CPU accounting and deadlines are not disturbed by the check itself");
-    rep.assume("socket pair transport (select works on its descriptor exactly as on TCP); RST is not modelled");
+    rep.assume("transport: unix socket pair (select works on its descriptor exactly as on TCP) or, for a third of the scenarios, TCP over the loopback interface, where the end mode Reset closes the server socket with SO_LINGER 0 (RST)");
     rep.list("matrix", matrix(rep.tier == engine::Tier::Thorough), run);
     rep.random("scenarios", rep.tier.n(150, 5_000), 24, decode, run);
     rep.require("scenarios", "end:close-notify", 5);
     rep.require("scenarios", "records:split-pdu", 5);
     rep.require("scenarios", "session:nla", 10);
+    rep.require("scenarios", "transport:tcp", 10);
 }
